@@ -94,7 +94,8 @@ def gen_values_raw(r, dtype, n):
         elif dtype.startswith("int"):
             vals.append(r.choice([0, 1, 1, 2, 3, 5, -4, 7, 7, 100]))
         elif dtype.startswith("float"):
-            vals.append(r.choice([0.0, -0.0, 0.5, 1.5, 2.5, 2.5, -3.25, 1e6, 7.0, 7.0]))
+            vals.append(r.choice([0.0, -0.0, 0.5, 1.5, 2.5, 2.5, -3.25, 1e6, 7.0, 7.0] +
+                                 ([float("inf"), float("-inf"), 1e17] if r.random() < 0.1 else [])))
         elif dtype == "datetime64[D]":
             vals.append(r.choice([0, 5, 5, 10, 12, 365, -400, 19000]))
         else:
